@@ -46,6 +46,24 @@ CHECKS.update({
         text="For representative and TLC-generated load/save scenarios the harness first measures the fault points of the fault-free run (operator new calls, input bytes, output bytes); MC_Faults enumerates every position of every applicable fault kind (k-th allocation fails, input stream buffer reports EOF or throws at byte k, output stream buffer fails or throws at byte k) plus one position past the end; each run executes in a forked child with a terminate handler, watchdog and address-space cap, with a counting allocator reporting blocks that survive the call. Trace_Faults requires: outcome in {returned, exception}, never terminate/hang/crash, zero leaked blocks, and an exception whenever the fault point is reached (MessagePack is prefix-free; a short write is an error).",
         note="MessagePack archive only so far. Trusted: TLC, harness allocator/stream doubles. Truncation at every byte of generated documents is covered by C07 (thorough). Level reported as model_checking with TLC state counts; the fault enumeration itself is exhaustive over the counted fault points of each scenario.",
         design_ref="DESIGN.md#c20"),
+    "C11": dict(
+        category="model_checking",
+        technique="TLA+ Layer-1 specification of the UTF encoding forms (Unicode.tla) as independent oracle: TLC evaluates the encoding table for scalar values (sharded), the real transcoders run on every row, random sequences are trace-validated by TLC; MC_Unicode explores the spec's own consistency exhaustively",
+        text="TLC explores MC_Unicode (cp -> Encode -> Decode over all range boundaries +-3 and slices: round trip, shortest form, surrogates only for supplementary, byte orders, BOM). TLC writes the five-scheme byte encoding of every scalar value (all 1,112,064 in thorough; boundaries +-2 plus one seeded plane in quick); the harness pushes each through the 20 ordered scheme pairs x both policies, Transcode and Convert::To among the four string types, appended to a non-empty output; outputs, ErrorCode, iterator-at-end and error count must equal the table. Random sequences up to 4096 scalar values are judged by TLC from the logged input.",
+        note="Table comparison is plain equality against TLC's table. Little-endian host. Archive string keys/values are driven by the C01/C08 checks, not here.",
+        design_ref="DESIGN.md#c11"),
+    "C12": dict(
+        category="model_checking",
+        technique="TLA+ decoder transition system (Canon + DecStep with nondeterministic segmentation of bad runs) model-checked by TLC incl. termination; TLC-generated ill-formed inputs executed on every real decoder/encoder/Transcode entry point; each observation accepted only if some DecStep behaviour explains it (named deviation transitions classify findings)",
+        text="MC_UnicodeDec checks exhaustively for all strings up to length 3-4 over class representatives and all behaviours: iterator in bounds, output well-formed, valid items preserved, count = marks, valid input has a unique outcome, every behaviour terminates under FairSpec. TLC generates all 1- and 2-byte UTF-8 strings, 3/4-byte strings by boundary class, 5/6-byte forms, UTF-16 strings by class, UTF-32 units as 16-bit halves, bare and embedded between valid neighbours, x target widths x {default, custom, empty, null mark, ThrowError}; the real code runs them on 8-11 entry points and TLC's acceptor decides each record.",
+        note="UnexpectedEnd is accepted for a structurally truncated tail; the count of the failing call under ThrowError is unconstrained; same-width copies are outside the property.",
+        design_ref="DESIGN.md#c12"),
+    "C13": dict(
+        category="model_checking",
+        technique="TLA+ refinement M => A for CEncodedStreamReader / DetectEncoding with safety and liveness (FairSpec, termination of the client loop) checked by TLC; TLC-generated parametric streams executed on the real reader/writer under a call limit and watchdog; traces (results, window offsets via friend accessor, output) validated by TLC against M and A",
+        text="MC_EncodedStream checks all texts up to 3-4 characters over length-class representatives x 5 schemes x BOM x every truncation point x 3 target widths x 2 policies x model chunks {8,12}: WellFormed, DetectionCorrect, ContentCorrect (concatenated chunk outputs = a decoding of the whole stream, chunk independent), WholeTextExact, and Terminates under FairSpec (the odd-length UTF-16 livelock of the original tree is a liveness counterexample). Real code: chunk 32 with filler 0..39 and 60..70, chunk 256 around its boundaries, the hook build, short-read stream buffers, and the writer (bytes = BOM + encoding).",
+        note="Detection is demanded only for a complete BOM or a complete ASCII non-NUL first character when the bytes are not ambiguous. Known finding: NUL-containing text confuses detection. CSV/JSON/XML stream entry points are driven by C09/C08/C10.",
+        design_ref="DESIGN.md#c13"),
 })
 
 NOT_YET = {
